@@ -572,6 +572,14 @@ def child_history(ops: List[Any], fixed: List[Tuple[str, Any]], reference: List[
             pending_wide = pending_wide or bool(failed)
             if conv is not None:
                 convs.append((op[3], conv))
+        elif op[0] == "fail-use" and convs:
+            # a use that is cut short by an asynchronous exception (the first use of a class builds per-class functions):
+            # the same converter is an ordinary converter afterwards
+            label, conv = convs[op[1] % len(convs)]
+            name, j = battery[op[2] % len(battery)]
+            _, failed = faulty_call(c, lambda: outcome(conv, t, name, j), "interrupt", op[3])
+            faults.append(["use", op[3], bool(failed)])
+            conv = label = None
         elif op[0] == "add_input":
             battery.append((op[1], op[2]))
         elif op[0] == "drop" and convs:
@@ -620,6 +628,11 @@ class Injected(BaseException):
 
 def faulty_create(c, make, mode: str, n: int, kind: str):
     """-> (converter or None, the injected failure or None)"""
+    return faulty_call(c, lambda: make(kind), mode, n)
+
+
+def faulty_call(c, fn, mode: str, n: int):
+    """-> (result or None, the injected failure or None)"""
     import inspect
     pkg_dir = os.path.dirname(os.path.abspath(c.__file__))
     if mode == "interrupt":
@@ -650,7 +663,7 @@ def faulty_create(c, make, mode: str, n: int, kind: str):
 
         sys.settrace(tracer)
         try:
-            conv = make(kind)
+            conv = fn()
             return conv, None
         except Injected as e:
             return None, e
@@ -662,7 +675,7 @@ def faulty_create(c, make, mode: str, n: int, kind: str):
         try:
             sys.setrecursionlimit(depth + 4 + n)
             try:
-                conv = make(kind)
+                conv = fn()
                 return conv, None
             except RecursionError as e:
                 return None, e
@@ -718,6 +731,11 @@ def _work_hist(args) -> dict:
         def fail_create(self, mode, kind, n):
             self.ops.append(["fail-create", mode, n if mode == "interrupt" else n % 64, kind])
 
+        @precondition(lambda self: any(o[0] == "create" for o in self.ops) and sum(o[0] == "fail-use" for o in self.ops) < 4)
+        @rule(ci=st.integers(0, 100), bi=st.integers(0, 1000), n=st.one_of(st.integers(1, 40), st.integers(1, 600)))
+        def fail_use(self, ci, bi, n):
+            self.ops.append(["fail-use", ci, bi, n])
+
         @precondition(lambda self: self.n_inputs < 12)
         @rule(data=st.data(), ri=st.integers(0, 10**6), broken=st.booleans())
         def add_input(self, data, ri, broken):
@@ -759,7 +777,7 @@ def _work_hist(args) -> dict:
             stats["faulty_first_creations_that_failed"] += sum(1 for f in res.get("faults", [])[:1] if f[2] and self.ops and self.ops[0][0] == "fail-create")
             stats["uses"] += sum(1 for o in self.ops if o[0] == "use")
             stats["battery_evaluations"] += res["evaluations"]
-            short = [o[:2] if o[0] not in ("use", "fail-create") else o for o in self.ops]
+            short = [o[:2] if o[0] not in ("use", "fail-create", "fail-use") else o for o in self.ops]
             histories.append(short)
             for sig, detail, step in res["findings"]:
                 ctx.finding(tuple(sig), detail + f"; history {short[: step + 1]}", {"ops": self.ops[: step + 1]})
@@ -872,13 +890,18 @@ def _work_fault(args) -> dict:
 
     def one(x):
         mode, n, kind, second = x
-        ops = [["fail-create", mode, n, kind], ["create", second], ["create", "fresh"]]
+        if stats["fault_histories"] % 2:
+            # every other history: the creation succeeds, the first uses are cut short at fault point n, n+7, ...
+            ops = [["create", kind]] + [["fail-use", 0, bi, max(1, n % 700 + 7 * i)] for i, bi in enumerate((n % len(fixed), 11, 6, 19))] + [["create", second]]
+        else:
+            ops = [["fail-create", mode, n, kind], ["create", second], ["create", "fresh"]]
         res = in_child(child_history, ops, fixed, ref["outcomes"], wide, ref.get("by_group"))
         stats["fault_histories"] += 1
         if res is None:
             stats["inconclusive_timeouts"] += 1
             return
-        if res["faults"] and res["faults"][0][2]:
+        stats["uses_cut_short"] += sum(1 for f in res["faults"] if f[0] == "use" and f[2])
+        if res["faults"] and res["faults"][0][2] and res["faults"][0][0] != "use":
             stats["first_creation_failed"] += 1
             distinct.append(json.dumps(["fault", mode, n]))
         stats["battery_evaluations"] += res["evaluations"]
